@@ -24,7 +24,9 @@ ALSO = {"C14-D": ["C15"], "C07-D": ["C02"], "C01-E": ["C05"], "C07-F": ["C03"], 
         "C02-K": ["C06"], "C06-K": ["C02"], "C08-L": ["C07"], "C10-K": ["C18"], "C11-L": ["C13"], "C13-K": ["C11"], "C14-L": ["C01"],
         "C04-M": ["C01"], "C04-N": ["C01"], "C05-M": ["C06"], "C12-M": ["C15"],
         "C02-O": ["C06"], "C05-P": ["C03"], "C07-P": ["C08"], "C09-O": ["C10"], "C09-P": ["C10"], "C13-O": ["C12"], "C11-O": ["C13"],
-        "C11-P": ["C09"]}
+        "C11-P": ["C09"],
+        "C05-Q": ["C01"], "C07-Q": ["C11"], "C14-R": ["C18"], "C03-R": ["C06"], "C02-R": ["C06"], "C06-Q": ["C03"], "C12-R": ["C14"],
+        "C13-Q": ["C12"], "C16-R": ["C20"]}
 
 
 def sh(*cmd: str, timeout: int = 1800) -> subprocess.CompletedProcess:
